@@ -61,6 +61,34 @@ def arrays_of(case, ncomp=1):
     return e, n, d
 
 
+def check_subsets(est, e, n, comps, tol, what, exact=False):
+    """The property holds per data point: predicting at a few of the data points (a strided subset as 1-D arrays, the last point
+    alone as a one-element array and as plain numbers) must return their data values as well."""
+    ef, nf = np.asarray(e, dtype="float64").ravel(), np.asarray(n, dtype="float64").ravel()
+    flat = [np.asarray(c, dtype="float64").ravel() for c in comps]
+    size = ef.size
+    if size == 0:
+        return
+    picks = [("every third point", np.arange(size)[::3]), ("the last point", np.array([size - 1]))]
+    for name, idx in picks:
+        forms = [(ef[idx], nf[idx])]
+        if idx.size == 1:
+            forms.append((float(ef[idx[0]]), float(nf[idx[0]])))
+        for qe, qn in forms:
+            pred = quiet(est.predict, (qe, qn))
+            pred = pred if isinstance(pred, tuple) else (pred,)
+            if len(pred) != len(flat):
+                raise Violation("%s predicting at %s returns %d components, fitted with %d" % (what, name, len(pred), len(flat)))
+            for k, (p, c) in enumerate(zip(pred, flat)):
+                p = np.asarray(p, dtype="float64")
+                if p.shape != np.shape(qe):
+                    raise Violation("%s predicting at %s: component %d has shape %s, the query has shape %s" % (what, name, k, p.shape, np.shape(qe)))
+                err = float(np.max(np.abs(p.ravel() - c[idx])))
+                if not (err == 0 if exact else err <= tol):
+                    raise Violation("%s reproduces its data when predicting at all %d data points, but not when predicting only at %s (%s): component %d error %.3e, tolerance %.3e"
+                                    % (what, size, name, "plain numbers" if np.ndim(qe) == 0 else "%d-element arrays" % np.size(qe), k, err, tol))
+
+
 def nonconstant(vals):
     return len(set(vals)) > 1
 
@@ -128,6 +156,7 @@ def check_spline(case, ctx):
     if not err <= tol:
         raise Violation("Spline(mindist=%r) fitted to %d distinct points does not reproduce its data: max error %.3e, tolerance 64*kappa*eps*max|d| = %.3e (kappa %.3e, max|d| %.3e)"
                         % (md, d.size, err, tol, kappa, scale))
+    check_subsets(sp, e, n, (d,), tol, "Spline(mindist=%r)" % (md,))
     ctx.label("kappa1e%d" % int(math.log10(max(kappa, 1))), "int_data" if d_arg is not d else "float_data", "mindist" if md else "nomindist", "n>=80" if d.size >= 80 else "n<80", "weighted" if case.get("weighted") else "unweighted")
     ctx.nt(d.size >= 4 and nonconstant(case["data"][0]))
 
@@ -161,6 +190,7 @@ def check_vector(case, ctx):
         if not err <= tol:
             raise Violation("VectorSpline2D(poisson=%r, mindist=%r) does not reproduce component %d of its data: max error %.3e, tolerance %.3e (kappa %.3e)"
                             % (case["poisson"], md, k, err, tol, kappa))
+    check_subsets(vs, e, n, d, 64 * kappa * EPS * scale + TINY, "VectorSpline2D(poisson=%r, mindist=%r)" % (case["poisson"], md))
     ctx.label("kappa1e%d" % int(math.log10(max(kappa, 1))))
     ctx.nt(d[0].size >= 4 and nonconstant(case["data"][0]) and nonconstant(case["data"][1]))
 
@@ -174,6 +204,7 @@ def check_knn(case, ctx):
     if not np.array_equal(pred, d):
         bad = np.argwhere(pred != d)[0]
         raise Violation("KNeighbors(k=1) at its own data point %s returns %r, the datum is %r" % (bad.tolist(), pred[tuple(bad)], d[tuple(bad)]))
+    check_subsets(kn, e, n, (d,), 0.0, "KNeighbors(k=1)", exact=True)
     ctx.nt(d.size >= 4 and nonconstant(case["data"][0]))
 
 
@@ -316,6 +347,8 @@ def check_composition(case, ctx):
         err = float(np.max(np.abs(p - d)))
         if not err <= tol:
             raise Violation("%s fitted to %d points does not reproduce component %d of its data: max error %.3e, tolerance %.3e" % (comp, d.size, k, err, tol))
+    if not uses_scipy:  # (the SciPy interpolators can return NaN at hull vertices, finding D9, which the loop above sorts out point by point)
+        check_subsets(est, e, n, (d0, d1) if vector else (d0,), tol, comp)
     ctx.label(comp)
     ctx.nt(d0.size >= 4 and nonconstant(case["data"][0]))
 
